@@ -14,7 +14,8 @@ Case lines
   8 src                    open a switch_ node keyed by node `src` of the same graph; 9 opens its next branch
                            (branch b has key b; its nodes are addressed <switch path> ++ [100*(b+1)+index]); 4 closes it.
                            Cases with a switch_ are judged by the oracle only (no Coq model of switch_).
-  12 variant               a map_ scenario (cxx/lifecycle_dyn.cpp; oracle only): root = replay source -> map_;
+  12 variant               a map_ / reduce_ scenario (cxx/lifecycle_dyn.cpp; oracle only): root = replay source -> map_;
+                           (4 = reduce_(TSD, zero) with a static-node combiner: one child graph per tree position)
                            1 map_sink_(TSD) child{solo}, 2 map_sink_(TSD) child{head -> tail}, 3 map_(dynamic TSL) child{head}
   13 c k v / 14 c k        in replay cycle c set key (TSL: index) k to v / remove key k
                            faults of map_ children: path = [1, 500+pos], k = the k-th invocation of that hook over ALL
@@ -162,7 +163,7 @@ def gen_switch(rng, tier):
 def gen_map(rng, tier):
     """map_ children created mid-run: several keys per cycle, start faults in the k-th child of a cycle,
     evaluate and stop faults, removals; sampled at the return of run() and at the release."""
-    variant = rng.choice([1, 2, 2, 2, 3])
+    variant = rng.choice([1, 2, 2, 2, 3, 4])     # 4: reduce_ with a sub-graph combiner
     start = rng.randint(1, 2)
     ncycles = rng.randint(1, 4)
     end = start + ncycles + rng.randint(1, 3)
@@ -332,7 +333,7 @@ def enumerate_cases(prop):
                     out.append(make_case(tree, start, end, cleanup, [(1, 0, p, 2), (2, 0, q, 1)], []))
     # map_: keys arriving together in the first cycle / in a later cycle; every start, evaluate and stop
     # fault point of the first four hook invocations; both clean-up settings
-    for variant in (1, 2, 3):
+    for variant in (1, 2, 3, 4):
         npos = 2 if variant == 2 else 1
         scripts = ([[13, 0, 1, 1], [13, 0, 2, 2]], [[13, 0, 1, 1], [13, 0, 2, 2], [13, 0, 3, 3]],
                    [[13, 0, 1, 1], [13, 1, 2, 2], [13, 1, 3, 3]], [[13, 0, 1, 1], [13, 0, 2, 2], [14, 1, 1], [13, 2, 4, 4]])
@@ -690,7 +691,11 @@ def oracle_map(case, out):
             want_phase = 1 if h[5] else h[0]
             if result[0] != 40 or result[3] != fid or result[2] != want_phase or result[1] < 0:
                 swallowed = variant == 3 and h[0] == 2 and not h[5] and result == [41]
-                fails.append(("tsl_map_stop_fault_swallowed" if swallowed else "wrong_error",
+                # reduce_: a combiner retired while the tree shrinks/rebalances inside an evaluation is stopped through
+                # stop_combiner_noexcept: its stop fault is swallowed and the run goes on
+                shrink = variant == 4 and h[0] == 2 and h[5] and (result == [41] or (result[0] == 40 and result[3] != fid))
+                fails.append(("tsl_map_stop_fault_swallowed" if swallowed else
+                              "reduce_retired_combiner_stop_fault_swallowed" if shrink else "wrong_error",
                               "first fault %d fired in phase %d (in a cycle: %s); run reported %s" % (fid, h[0], h[5], result)))
         elif result[0] == 40:
             fails.append(("wrong_error", "run threw %s but no fault fired" % (result,)))
@@ -774,7 +779,10 @@ PROP_KINDS = {
     "C14": {"start_order", "stop_order", "rollback_wrong", "leak_rollback_abort", "stop_blocked", "stopped_twice", "started_twice",
             "not_stopped", "late_stop", "counter_mismatch", "left_started", "eval_outside_lifetime", "wrong_error",
             "unbalanced", "trace_shape", "build_error", "terminate_on_foreign_exception",
-            "map_stop_abort", "tsl_map_stop_fault_swallowed", "observer_throw_skips_stop"},
+            "map_stop_abort", "tsl_map_stop_fault_swallowed", "reduce_retired_combiner_stop_fault_swallowed"},
+    # "observer_throw_skips_stop" is deliberately NOT listed: an exception thrown by a LifecycleObserver callback is
+    # outside C14's quantifier (exceptions thrown from a node's start/evaluate/stop); the kind is computed, reported nowhere
+
 }
 
 
